@@ -66,6 +66,9 @@ def run_case(ctx, rng, focus, forced=None):
     plain = bool(forced and forced.get("plain"))      # one command, everything defined and succeeding
     if plain: seqs, cmds, expected_cmds = [], ["build"], ["build"]
     if forced and forced.get("only_cmds"): seqs, cmds, expected_cmds = [], list(forced["only_cmds"]), list(forced["only_cmds"])
+    if forced and forced.get("seqs_and_cmds"):
+        seqs, cmds = list(forced["seqs_and_cmds"][0]), list(forced["seqs_and_cmds"][1])
+        expected_cmds = sum((cfg["sequences"][q] for q in seqs), []) + cmds
     mode = rng.choice(["all", "changed", "explicit", "deps", "deps"] if focus != "C05" else ["all", "changed", "explicit", "deps", "deps", "deps"])
     if forced: mode = forced["mode"]
     fou = rng.random() < 0.4
@@ -153,7 +156,7 @@ def run_case(ctx, rng, focus, forced=None):
             ctx.count("detached_long_runner")
         if any(isinstance(v, dict) and "signal" in v for v in script.values()): ctx.count("failure_by_signal")
         eff_kinds, flip = kinds, None
-        if focus == "C06" and len(expected_cmds) >= 2 and selected and rng.random() < 0.35:
+        if focus == "C06" and len(expected_cmds) >= 2 and selected and (rng.random() < 0.35 or (forced or {}).get("flip")):
             # the execute permission of a command file changes DURING the run: a task of the first command flips the x bit of a file
             # that the last command needs.  What counts is the state when that task is due, not when the plan was made.
             c1, c2 = expected_cmds[0], expected_cmds[-1]
@@ -164,7 +167,9 @@ def run_case(ctx, rng, focus, forced=None):
                 tcfg = next(t for t in cfg["targets"] if t["path"] == vt)
                 cdir = os.path.join(rr.repo, tcfg.get("commands", {}).get("path") or os.path.join(vt, "monorail", "cmd"))
                 vf = os.path.join(cdir, c2)
-                was = kinds.get((c2, vt), "exec")
+                # both directions equally often: the bit is there at planning time and gone when the task is due, or the other way round
+                was = (forced or {}).get("flip") or rng.choice(["exec", "noexec"])
+                kinds = dict(kinds); kinds[(c2, vt)] = was; eff_kinds = kinds
                 if os.path.lexists(vf): os.remove(vf)
                 shutil.copy(vlib.BIN_VHELPER, vf); os.chmod(vf, 0o755 if was == "exec" else 0o644)      # a regular file: its own mode bits
                 script["%s|%s" % (c1, a)]["chmod"] = [[vf, 0o644 if was == "exec" else 0o755]]
@@ -343,7 +348,7 @@ def run(ctx, scale, focus):
             wcfg = {"targets": [{"path": nm[0]}] + [{"path": nm[i], "uses": [nm[i - 1]] + ([nm[0]] if i > 1 and r0.random() < 0.5 else [])} for i in range(1, 4)] + [{"path": nm[4], "uses": [nm[1]]}], "sequences": SEQS}
             r0.shuffle(wcfg["targets"])
             cs = r0.getrandbits(32)
-            run_case(ctx, random.Random(cs), focus, forced={"case_seed": cs, "cfg": wcfg, "mode": "all", "named": [], "timing": "deps_slower"})
+            run_case(ctx, random.Random(cs), focus, forced={"case_seed": cs, "cfg": wcfg, "mode": "all", "named": [], "timing": "deps_slower", "plain": rep % 2 == 0})
             ctx.count("long_multibyte_chain")
     if focus == "C06":
         for point, ms in (("compressor_between_shutdowns", 40), ("compressor_before_join", 60), ("compressor_between_shutdowns", 5)) * (1 if ctx.quick() else 8):
@@ -362,6 +367,29 @@ def run(ctx, scale, focus):
             cs = r0.getrandbits(32)
             run_case(ctx, random.Random(cs), focus, forced={"case_seed": cs, "cfg": cfgw, "mode": "all", "named": [], "kinds": kindsw, "fou": False, "fail_at": fa, "only_cmds": ["build"] if r0.random() < 0.5 else ["build", "test"]})
             ctx.count("undefined_before_defined_in_group")
+    if focus == "C06":
+        # the execute bit of a command file changes while the run is under way, in each direction
+        for rep, fl in enumerate(["exec", "noexec"] * (1 if ctx.quick() else 6)):
+            r0 = random.Random(ctx.rng.getrandbits(32)); cs = r0.getrandbits(32)
+            fcfg = {"targets": [{"path": "f%d" % i} for i in range(3)], "sequences": SEQS}
+            run_case(ctx, random.Random(cs), focus, forced={"case_seed": cs, "cfg": fcfg, "mode": "all", "named": [], "fou": False, "fail_at": [], "only_cmds": ["build", "test"], "flip": fl})
+    if focus == "C05":
+        # sequences and commands in one invocation: the expanded sequences come first, then the commands, all of them
+        for rep in range(2 if ctx.quick() else 10):
+            r0 = random.Random(ctx.rng.getrandbits(32)); cs = r0.getrandbits(32)
+            sq = r0.sample(list(SEQS), r0.randint(1, 2))
+            cm = [c for c in CMDS if c not in sum((SEQS[q] for q in sq), [])][:r0.randint(1, 2)]
+            scfg = gen_dag_config(r0, n=r0.randint(2, 4))
+            run_case(ctx, random.Random(cs), focus, forced={"case_seed": cs, "cfg": scfg, "mode": "all", "named": [], "seqs_and_cmds": [sq, cm]})
+            ctx.count("sequences_and_commands_together")
+    if focus == "C04":
+        # a dependent whose name merely extends its dependency's name (core-utils uses core, t12 uses t1), the dependency slower
+        for rep in range(2 if ctx.quick() else 10):
+            r0 = random.Random(ctx.rng.getrandbits(32)); cs = r0.getrandbits(32)
+            pcfg = {"targets": [{"path": "core"}, {"path": "core-utils", "uses": ["core"]}, {"path": "t1"}, {"path": "t12", "uses": ["t1/src"]}, {"path": "t1/inner"}], "sequences": SEQS}
+            r0.shuffle(pcfg["targets"])
+            run_case(ctx, random.Random(cs), focus, forced={"case_seed": cs, "cfg": pcfg, "mode": "all", "named": [], "timing": "deps_slower", "plain": True})
+            ctx.count("prefix_named_dependents")
     if focus == "C05":
         # every single named target with --deps on layered graphs with shared dependencies and a tail beneath them
         for rep in range(2 if ctx.quick() else 12):
